@@ -1,8 +1,8 @@
 (* C18 -- Struct layouts follow the System V AMD64 C ABI.
    Property theorems only; proofs live in Proofs/LayoutProofs.v.
-   Model/Layout.v = what air/src/layout.rs does (u32, bit trick, name maps, Kahn with a stack);
-   Model/SysV.v  = what the psABI says (arithmetic, order-free); Extracted/LayoutTable.v = the
-   (size, align) arms of layout_of as they are in the source today. *)
+   Model/Layout.v = what air/src/layout.rs does (checked u32 arithmetic, bit trick, name maps, Kahn
+   with a stack, error values); Model/SysV.v = what the psABI says (arithmetic, order-free) and what
+   fits u32; Extracted/LayoutTable.v = the (size, align) arms of layout_of as they are today. *)
 From Coq Require Import Permutation.
 From Aelys Require Import Base.Tactics Extracted.LayoutTable Model.Layout Model.SysV Proofs.LayoutProofs.
 Local Open Scope N_scope.
@@ -13,151 +13,130 @@ Theorem C18_round_up_least : forall x a, 0 < a ->
   (forall m, m mod a = 0 -> x <= m -> round_up x a <= m).
 Proof. exact round_up_spec. Qed.
 
-(* align_to_spec: the bit trick (o + a - 1) & !(a - 1) in u32 is that least multiple, for every
-   power of two a and every o, as long as o + a does not overflow (checked build: o + a < 2^32,
-   release build: o + a - 1 < 2^32) *)
-Theorem C18_align_to_spec : forall (chk : bool) o k, k < 32 ->
-  o + 2^k < W32 + (if chk then 0 else 1)%N ->
-  align_to chk o (2^k) = Ok (round_up o (2^k)).
+(* align_to_spec: offset.checked_add(align - 1)? & !(align - 1) is that least multiple, for every
+   power of two a and every u32 o, whenever o + a - 1 fits u32 *)
+Theorem C18_align_to_spec : forall o k, k < 32 -> o + 2^k <= W32 ->
+  align_to o (2^k) = Ok (round_up o (2^k)).
 Proof. exact align_to_exact. Qed.
 
-(* release build, no guard at all: the result is congruent to the exact one modulo 2^32 *)
-Theorem C18_align_to_wraps_congruent : forall x k, k < 32 ->
-  align_to false (x mod W32) (2^k) = Ok ((round_up x (2^k)) mod W32).
-Proof. exact align_to_wrap. Qed.
+(* ... and exactly: it is TooLarge iff the least multiple itself does not fit u32 *)
+Theorem C18_align_to_exact : forall o a, (exists k, k < 32 /\ a = 2^k) -> o < W32 ->
+  align_to o a = if W32 <=? round_up o a then Fail ETooLarge else Ok (round_up o a).
+Proof. exact align_to_char. Qed.
 
 (* the table in layout_of today = sizeof/_Alignof of the C translation on x86-64 System V *)
 Theorem C18_prim_table_is_sysv : forall p, prim_layout p = sysv_prim p.
 Proof. exact prim_table_sysv. Qed.
 
-(* struct_layout_matches_sysv: for any field list whose field types resolve to (size, align)
-   pairs ms with power-of-two alignments, offsets / size / alignment computed by struct_layout
-   are those of the C struct with these members, in both builds, provided the struct's size plus
-   its alignment stays below 2^32 (release: does not exceed 2^32) *)
-Theorem C18_struct_layout_matches_sysv : forall chk m fs ms,
-  Forall2 (fun t sa => resolved_layout chk m t = Ok sa) fs ms ->
+(* struct_layout_matches_sysv: for any field list whose field types resolve to (size, align) pairs
+   ms with power-of-two alignments, struct_layout returns exactly the offsets / size / alignment of
+   the C struct with these members when its sizeof fits u32, and TooLarge otherwise *)
+Theorem C18_struct_layout_matches_sysv : forall m fs ms,
+  Forall2 (fun t sa => resolved_layout m t = Ok sa) fs ms ->
   Forall (fun sa => exists k, k < 32 /\ snd sa = 2^k) ms ->
-  snd (fst (c_struct_of ms)) + snd (c_struct_of ms) < W32 + (if chk then 0 else 1)%N ->
-  struct_layout chk m fs = Ok (c_struct_of ms).
-Proof. exact struct_layout_exact. Qed.
-
-(* ... and with no guard in the release build: congruent modulo 2^32, field by field *)
-Theorem C18_struct_layout_wraps_congruent : forall m fs ms,
-  Forall2 (fun t sa => resolved_layout false m t = Ok ((fst sa) mod W32, snd sa)) fs ms ->
-  Forall (fun sa => exists k, k < 32 /\ snd sa = 2^k) ms ->
-  struct_layout false m fs =
-  Ok (map (fun o => o mod W32) (fst (fst (c_struct_of ms))), (snd (fst (c_struct_of ms))) mod W32, snd (c_struct_of ms)).
-Proof. exact struct_layout_wrap. Qed.
-
-(* a build with overflow checks either panics or computes what the release build computes *)
-Theorem C18_checked_refines_wrapping : forall E r,
-  compute_layouts true E = Ok r -> compute_layouts false E = Ok r.
-Proof. exact compute_layouts_chk. Qed.
+  struct_layout m fs =
+  if W32 <=? snd (fst (c_struct_of ms)) then Fail ETooLarge else Ok (c_struct_of ms).
+Proof. exact struct_layout_char. Qed.
 
 (* the specification's fuel only decides definedness, never the value *)
 Theorem C18_spec_fuel_irrelevant : forall E f f' fs v v',
   c_struct f E fs = Some v -> c_struct f' E fs = Some v' -> v = v'.
 Proof. exact c_struct_det. Qed.
 
-(* layout_matches_sysv, soundness half: whenever compute_layouts returns (any build, any
-   declaration order, any environment with unique names), every offset it stored is the C
-   offset modulo 2^32 -- exactly the C offset when the struct is smaller than 4 GiB -- and every
-   (size, align) it recorded is the C sizeof/_Alignof likewise.
-   This half also covers environments outside the property's domain (undefined names, pointer
-   soup) and the overflow-checked build. *)
-Theorem C18_layout_sound_whenever_it_returns : forall chk E offs m,
+(* soundness for arbitrary environments with unique names (also outside the property's domain:
+   undefined names, anything): whatever compute_layouts returns is exactly the C layout, and the
+   definitions fit u32 *)
+Theorem C18_layout_sound_whenever_it_returns : forall E offs m,
   NoDup (map sname E) ->
-  compute_layouts chk E = Ok (offs, m) ->
+  compute_layouts E = Ok (offs, m) ->
   (forall i d os, nth_error E i = Some d -> nth_error offs i = Some (Some os) ->
-     exists f cos s a, c_struct f E (sfields d) = Some (cos, s, a) /\
-                       os = map (fun o => o mod W32) cos /\ (s < W32 -> os = cos)) /\
-  (forall nm sz al, rlookup m nm = Some (sz, al) ->
-     exists f s, c_struct_sa f E nm = Some (s, al) /\ sz = s mod W32 /\ (s < W32 -> sz = s)).
+     exists f s a, c_struct f E (sfields d) = Some (os, s, a) /\ struct_fits f E d) /\
+  (forall nm s a, rlookup m nm = Some (s, a) -> exists f, c_struct_sa f E nm = Some (s, a) /\ s < W32).
 Proof. exact compute_layouts_sound. Qed.
 
 (* layout_matches_sysv: for EVERY well-formed environment (unique names, everything contained by
-   value is defined, containment well-founded -- any size, any nesting, any declaration order)
-   the release build returns, fills in the offsets of every struct, and offsets / size /
-   alignment are those of the C struct modulo 2^32, exactly those when the struct is < 4 GiB. *)
+   value is defined, containment well-founded -- any size, nesting, declaration order):
+   - if every struct and every array inside a field type is smaller than 2^32 bytes ([env_fits]),
+     compute_layouts returns, fills in every struct, and each offset, size and alignment is
+     exactly the C one;
+   - otherwise it returns the diagnostic TooLarge and lays nothing out.
+   There is no third outcome (no wrap-around, no panic, no other error). *)
 Theorem C18_layout_matches_sysv : forall E, wf_env E ->
-  exists offs m, compute_layouts false E = Ok (offs, m) /\
-    forall i d, nth_error E i = Some d ->
-      exists os f cos s a,
-        nth_error offs i = Some (Some os) /\
-        c_struct f E (sfields d) = Some (cos, s, a) /\
-        os = map (fun o => o mod W32) cos /\ rlookup m (sname d) = Some (s mod W32, a) /\
-        (s < W32 -> os = cos /\ rlookup m (sname d) = Some (s, a)).
+  (env_fits E /\ exists offs m, compute_layouts E = Ok (offs, m) /\
+     forall i d, nth_error E i = Some d ->
+       exists os f s a,
+         nth_error offs i = Some (Some os) /\ c_struct f E (sfields d) = Some (os, s, a) /\
+         s < W32 /\ rlookup m (sname d) = Some (s, a))
+  \/ (~ env_fits E /\ compute_layouts E = Fail ETooLarge).
 Proof. exact layout_matches_sysv_lemma. Qed.
 
-(* _partial: for the overflow-checked build only this is proved for whole environments: if it
-   returns, it returns what the release build returns (hence the C layout, by the theorem above).
-   Missing: that it does not panic when every struct is smaller than 2^32 - 8 bytes (proved per
-   struct in C18_struct_layout_matches_sysv with chk = true, not composed over environments). *)
-Theorem C18_layout_matches_sysv_checked_build_partial : forall E offs m, wf_env E ->
-  compute_layouts true E = Ok (offs, m) ->
-  forall i d, nth_error E i = Some d ->
-    exists os f cos s a,
-      nth_error offs i = Some (Some os) /\ c_struct f E (sfields d) = Some (cos, s, a) /\
-      os = map (fun o => o mod W32) cos /\ (s < W32 -> os = cos /\ rlookup m (sname d) = Some (s, a)).
-Proof. exact layout_checked_partial_lemma. Qed.
+Theorem C18_layout_fits_is_laid_out : forall E, wf_env E -> env_fits E ->
+  exists offs m, compute_layouts E = Ok (offs, m) /\
+     forall i d, nth_error E i = Some d ->
+       exists os f s a,
+         nth_error offs i = Some (Some os) /\ c_struct f E (sfields d) = Some (os, s, a) /\
+         s < W32 /\ rlookup m (sname d) = Some (s, a).
+Proof. exact layout_fits_lemma. Qed.
+
+Theorem C18_too_large_diagnosed : forall E, wf_env E -> ~ env_fits E -> compute_layouts E = Fail ETooLarge.
+Proof. exact layout_too_large_lemma. Qed.
 
 (* layout_order_independent: the same definitions in any two declaration orders get the same
-   offsets, sizes and alignments (no size guard) *)
+   outcome: the same offsets, sizes and alignments for every struct, or TooLarge both times *)
 Theorem C18_layout_order_independent : forall E E', wf_env E -> Permutation E E' ->
-  exists offs m offs' m',
-    compute_layouts false E = Ok (offs, m) /\ compute_layouts false E' = Ok (offs', m') /\
-    forall i i' d, nth_error E i = Some d -> nth_error E' i' = Some d ->
-      nth_error offs i = nth_error offs' i' /\ rlookup m (sname d) = rlookup m' (sname d).
+  (exists offs m offs' m',
+     compute_layouts E = Ok (offs, m) /\ compute_layouts E' = Ok (offs', m') /\
+     forall i i' d, nth_error E i = Some d -> nth_error E' i' = Some d ->
+       nth_error offs i = nth_error offs' i' /\ rlookup m (sname d) = rlookup m' (sname d))
+  \/ (compute_layouts E = Fail ETooLarge /\ compute_layouts E' = Fail ETooLarge).
 Proof. exact layout_order_independent_lemma. Qed.
 
 (* cycle_diagnosed: if some non-empty set of structs is closed under "has a field that contains
-   (directly or inside arrays) a member of the set", compute_layouts stops with one of its two
-   diagnostics in both builds and lays nothing out *)
-Theorem C18_cycle_diagnosed : forall chk E, NoDup (map sname E) -> byvalue_cycle E ->
-  compute_layouts chk E = Fail ESelfRef \/ compute_layouts chk E = Fail ECycle.
+   (directly or inside arrays) a member of the set", compute_layouts returns one of its two
+   recursion diagnostics and lays nothing out *)
+Theorem C18_cycle_diagnosed : forall E, NoDup (map sname E) -> byvalue_cycle E ->
+  compute_layouts E = Fail ESelfRef \/ compute_layouts E = Fail ECycle.
 Proof. exact cycle_diagnosed_lemma. Qed.
 
-(* the fuel given to the model of the Kahn loop always suffices: the only outcomes are an order
-   or the cycle diagnostic *)
+(* the direct case, without the unique-names hypothesis *)
+Theorem C18_self_reference_diagnosed : forall E d t,
+  In d E -> In t (sfields d) -> refs_by_value t (sname d) = true ->
+  compute_layouts E = Fail ESelfRef.
+Proof. exact self_ref_diagnosed. Qed.
+
+(* the fuel given to the model of the Kahn loop always suffices *)
 Theorem C18_kahn_fuel_sufficient : forall E,
   (exists order, topological_order E = Ok order) \/ topological_order E = Fail ECycle.
 Proof. exact topological_order_outcomes. Qed.
 
-(* cycle_diagnosed, direct case: a struct that contains itself by value (possibly inside arrays) *)
-Theorem C18_self_reference_diagnosed : forall chk E d t,
-  In d E -> In t (sfields d) -> refs_by_value t (sname d) = true ->
-  compute_layouts chk E = Fail ESelfRef.
-Proof. exact self_ref_diagnosed. Qed.
+(* regression: the inputs of the repaired defect KF-C18-1 (silent `n as u32` truncation, u32
+   wrap-around, overflow panic; the last one is expressible in source text) are diagnosed now,
+   and the largest struct that fits (2^32 - 1 bytes) is still laid out exactly *)
+Theorem C18_former_overflow_inputs_diagnosed :
+  compute_layouts overflow_witness = Fail ETooLarge /\
+  compute_layouts [(1, [TArray (TPrim PI64) 536870912; TPrim PU8])] = Fail ETooLarge /\
+  compute_layouts doubling_witness = Fail ETooLarge.
+Proof. exact former_overflow_inputs_diagnosed. Qed.
 
-(* the unguarded statement is false of the code: sizes are u32.  `n as u32` truncates silently in
-   BOTH builds; 30 nested doublings of an 8-byte struct (expressible in source text) wrap to 0 in
-   release and panic with an arithmetic overflow under overflow checks *)
-Theorem C18_layout_matches_sysv_refuted :
-  (forall chk, exists m, compute_layouts chk overflow_witness = Ok ([Some [0; 1]], m)) /\
-  c_struct 1 overflow_witness (sfields (1, [TArray (TPrim PU8) 4294967297; TPrim PU8]))
-    = Some ([0; 4294967297], 4294967298, 1).
-Proof. exact overflow_witness_facts. Qed.
+Theorem C18_largest_struct_laid_out :
+  bind (compute_layouts [(1, [TArray (TPrim PU8) 4294967294; TPrim PU8])])
+       (fun r => Ok (fst r, rlookup (snd r) 1))
+  = Ok ([Some [0; 4294967294]], Some (4294967295, 1)).
+Proof. exact largest_struct_laid_out. Qed.
 
-Theorem C18_doubling_chain_refuted :
-  compute_layouts true doubling_witness = Fail EOverflow /\
-  bind (compute_layouts false doubling_witness)
-       (fun r => Ok (nth_error (fst r) 0, rlookup (snd r) 28, rlookup (snd r) 29))
-  = Ok (Some (Some [0; 0]), Some (2147483648, 8), Some (0, 8)).
-Proof. exact doubling_witness_facts. Qed.
-
-(* non-vacuity: nested structs, array stride, tail padding, declared dependents-first *)
+(* non-vacuity: a well-formed environment that fits, with nesting, array stride, tail padding,
+   dependents declared first; a concrete by-value cycle *)
 Example C18_nonvacuous :
   let E := [(2, [TPrim PU8; TArray (TStruct 1) 3; TPrim PU8; TPtr (TStruct 2)]);
             (1, [TPrim PI8; TPrim PI32; TPrim PI16])] in
-  wf_env E /\ byvalue_cycle [(1, [TStruct 2]); (2, [TArray (TStruct 1) 0])] /\
-  (exists m, compute_layouts true E = Ok ([Some [0; 4; 40; 48]; Some [0; 4; 8]], m)
-             /\ rlookup m 1 = Some (12, 4) /\ rlookup m 2 = Some (56, 8)) /\
+  wf_env E /\ env_fits E /\ byvalue_cycle [(1, [TStruct 2]); (2, [TArray (TStruct 1) 0])] /\
+  bind (compute_layouts E) (fun r => Ok (fst r, rlookup (snd r) 1, rlookup (snd r) 2))
+    = Ok ([Some [0; 4; 40; 48]; Some [0; 4; 8]], Some (12, 4), Some (56, 8)) /\
   c_struct 3 E (sfields (2, [TPrim PU8; TArray (TStruct 1) 3; TPrim PU8; TPtr (TStruct 2)]))
     = Some ([0; 4; 40; 48], 56, 8) /\
-  compute_layouts true [(1, [TStruct 2]); (2, [TArray (TStruct 1) 0])] = Fail ECycle /\
-  compute_layouts false [(1, [TPrim PU8; TArray (TStruct 1) 2])] = Fail ESelfRef.
+  compute_layouts [(1, [TStruct 2]); (2, [TArray (TStruct 1) 0])] = Fail ECycle /\
+  compute_layouts [(1, [TPrim PU8; TArray (TStruct 1) 2])] = Fail ESelfRef.
 Proof.
-  cbv zeta. split; [exact example_wf|]. split; [exact example_cycle|].
-  split; [eexists; vm_compute; repeat split; reflexivity|].
+  cbv zeta. split; [exact example_wf|]. split; [exact example_fits|]. split; [exact example_cycle|].
   vm_compute. repeat split; reflexivity.
 Qed.
